@@ -17,9 +17,10 @@ def main():
     f = get_facts()
     t = optable.compute(f)
     spec = {}
-    for kind, fns in sorted(t["op_of_kind"].items()):
-        assert len(fns) == 1
-        cells = t["cells"][fns[0]]
+    SPEC = os.path.join(os.path.dirname(os.path.abspath(__file__)), "..", "spec", "optable.json")
+    kinds = sorted(json.load(open(SPEC))) if os.path.exists(SPEC) else sorted(t["op_of_kind"])
+    for kind in kinds:
+        cells = t["cells_by_kind"][kind]      # read through the evaluator's own arm (DESIGN.md §8)
         table = {}
         for combo, outs in sorted(cells.items()):
             o = sorted([[list(map(list, x["conds"])), LABEL.sub("'*'", x["ret"])] for x in outs])
